@@ -9,8 +9,17 @@
   explicit outcome `Err.panic` at the places where the code can take it; `Err.fuel` is the
   artefact of the fuel-indexed recursion over nested maps (proved unreachable with enough
   fuel).  Source facts (the `concatFuncs` table, presence of the conflict checks, whether
-  `concatMaps` guards nil interface values) are the fields of `Cfg`, a parameter of every
-  function.
+  `concatMaps` guards nil interface values, whether that guard tests `Kind() == Interface`
+  before `IsNil()`, whether the recursion into nested maps is decided by the *kind* of the
+  gathered values' type, whether `ConcatItems` handles a nil interface result) are the fields
+  of `Cfg`, a parameter of every function.
+
+  Typed maps.  A map value carries the Go name of its element type (`et`): `"any"` for
+  `map[string]any`, `"string"` for `map[string]string`, `"map[string]string"` for
+  `map[string]map[string]string`, `"[]string"`, `"c14S"` (a struct) ….  The Go type of the map
+  value is `"map[string]" ++ et`; values stored in a map whose element type is not `any` are
+  values of that type (Go's type system; the functions below are total on ill-typed trees,
+  too, and the theorems do not need a typing hypothesis).
 -/
 namespace EinoV.C14
 
@@ -33,6 +42,18 @@ structure Cfg where
   /-- `concatMaps` skips nil interface values (a nil value is "absent") instead of handing
       them to `reflect.TypeOf`/`reflect.SliceOf` -/
   nilAbsent : Bool
+  /-- that guard is `val.Kind() == reflect.Interface && val.IsNil()`: `IsNil` is only called on
+      interface values.  `false` = the guard calls `val.IsNil()` on every gathered value, which
+      panics for element kinds that cannot be nil (string, numbers, bool, struct). -/
+  guardKindFirst : Bool
+  /-- `concatMaps` recurses when the *kind* of the gathered values' type is `Map`
+      (`v.Type().Elem().Kind() == reflect.Map`).  `false` = only `map[string]any` values
+      recurse, every other map type is handed to `concatSliceValue`. -/
+  recurseByKind : Bool
+  /-- `ConcatItems` returns the zero value of `T` when the concatenated value is a nil
+      interface (every chunk of an interface-typed stream was nil) instead of type-asserting
+      `cv.Interface().(T)` on it (which panics) -/
+  nilResultGuard : Bool
   /-- conflict checks of `ConcatMessages`: role, name, tool-call id of the message -/
   roleCheck : Bool
   nameCheck : Bool
@@ -48,14 +69,24 @@ def Cfg.rule (cfg : Cfg) (ty : String) : Rule :=
   | some r => r
   | none => .singleNonZero
 
-/-! ## value universe of `map[string]any` extras -/
+/-- both facts about `concatMaps` that the typed-map results rest on have the value the
+    theorems are proved for -/
+def Cfg.Std (cfg : Cfg) : Prop := cfg.guardKindFirst = true ∧ cfg.recurseByKind = true
 
-/-- A value stored in an `any`: `nil`, a non-map value of the Go type named `ty` with
-    payload `v` (`v = ""` ⇔ `reflect.Value.IsZero`), or a nested `map[string]any`. -/
+instance (cfg : Cfg) : Decidable cfg.Std := by unfold Cfg.Std; infer_instance
+
+/-! ## value universe: what a map chunk / an `Extra` can hold -/
+
+/-- A value: `nil` (the nil interface; only possible where the static type is an interface),
+    a non-map value of the Go type named `ty` with payload `v` (`v = ""` ⇔
+    `reflect.Value.IsZero`), or a map with string keys whose element type is named `et`
+    (`"any"` = `map[string]any`).  A nil map and an empty map are the same value here
+    (`concatMaps` never distinguishes them: `MapKeys` of a nil map is empty and the result is
+    always built with `MakeMap`). -/
 inductive XVal where
   | nil
   | sc (ty : String) (v : String)
-  | map (kvs : List (String × XVal))
+  | map (et : String) (kvs : List (String × XVal))
   deriving Repr, Inhabited
 
 abbrev KVs := List (String × XVal)
@@ -65,7 +96,7 @@ def XVal.isNil : XVal → Bool
   | _ => false
 
 def XVal.depth : XVal → Nat
-  | .map kvs => 1 + go kvs
+  | .map _ kvs => 1 + go kvs
   | _ => 0
 where go : List (String × XVal) → Nat
   | [] => 0
@@ -100,30 +131,61 @@ def asSc (ty : String) : XVal → Except Err String
   | .sc ty' v => if ty' = ty then .ok v else .error .fail
   | _ => .error .fail
 
-def asMap : XVal → Except Err KVs
-  | .map kvs => .ok kvs
+/-- `toSliceValue`'s type test for a map value: the same map type (= the same element type) -/
+def asMap (et : String) : XVal → Except Err KVs
+  | .map et' kvs => if et' = et then .ok kvs else .error .fail
   | _ => .error .fail
 
 /-- the values of one key after the `toSliceValue` stage: type check against the first
-    value, then `concatMaps` / `concatSliceValue`.  `rec` concatenates nested maps. -/
-def perKeyW (cfg : Cfg) (rec : List KVs → Except Err KVs) : List XVal → Except Err XVal
+    value, then `concatMaps` (the type's kind is `Map`, whatever the element type) /
+    `concatSliceValue`.  `rec et` concatenates nested maps of element type `et`. -/
+def perKeyW (cfg : Cfg) (rec : String → List KVs → Except Err KVs) : List XVal → Except Err XVal
   | [] => .ok .nil                       -- only nil values seen: the key keeps a nil value
   | .nil :: _ => .error .panic           -- reflect.SliceOf(reflect.TypeOf(nil))
   | .sc ty v :: rest => do
     let ps ← rest.mapM (asSc ty)
     combineSc (cfg.rule ty) ty (v :: ps)
-  | .map kvs :: rest => do
-    let ms ← rest.mapM asMap
-    let r ← rec (kvs :: ms)
-    pure (.map r)
+  | .map et kvs :: rest => do
+    let ms ← rest.mapM (asMap et)
+    let r ← rec et (kvs :: ms)
+    pure (.map et r)
+
+/-- the other value of the `recurseByKind` fact: only `map[string]any` values recurse; a map
+    of any other type goes to `concatSliceValue`, which has no function registered for it:
+    all zero → zero, one non-zero → it, more → error (zero = nil map, identified with the
+    empty map in this universe). -/
+def perKeyWNoKind (cfg : Cfg) (rec : String → List KVs → Except Err KVs) : List XVal → Except Err XVal
+  | .map et kvs :: rest =>
+    if et = "any" then perKeyW cfg rec (.map et kvs :: rest)
+    else do
+      let ms ← rest.mapM (asMap et)
+      match (kvs :: ms).filter (fun m => !m.isEmpty) with
+      | [] => .ok (.map et [])
+      | [m] => .ok (.map et m)
+      | _ :: _ :: _ => .error .fail
+  | ws => perKeyW cfg rec ws
 
 /-- with the guard, nil interface values are not gathered at all -/
 def dropNil (cfg : Cfg) (vs : List XVal) : List XVal :=
   if cfg.nilAbsent then vs.filter (fun v => !v.isNil) else vs
 
 /-- One key of `concatMaps`: `vs` = the values gathered for the key, in chunk order. -/
-def perKey (cfg : Cfg) (rec : List KVs → Except Err KVs) (vs : List XVal) : Except Err XVal :=
+def perKey (cfg : Cfg) (rec : String → List KVs → Except Err KVs) (vs : List XVal) : Except Err XVal :=
   perKeyW cfg rec (dropNil cfg vs)
+
+/-- … with the recursion decided as the `recurseByKind` fact says -/
+def perKeyF (cfg : Cfg) (rec : String → List KVs → Except Err KVs) (vs : List XVal) : Except Err XVal :=
+  if cfg.recurseByKind then perKey cfg rec vs else perKeyWNoKind cfg rec (dropNil cfg vs)
+
+def isPrefix (p s : String) : Bool := p.toList.isPrefixOf s.toList
+
+/-- element types whose `reflect.Value.IsNil` is legal (map, slice, pointer kinds; by name) -/
+def nillableTy (et : String) : Bool := isPrefix "map[" et || isPrefix "[]" et || isPrefix "*" et
+
+/-- The gather loop's `val.IsNil()` panics: the guard is there, it does not test
+    `Kind() == Interface` first, and the maps' element type is a kind that cannot be nil. -/
+def guardPanics (cfg : Cfg) (et : String) : Bool :=
+  cfg.nilAbsent && !cfg.guardKindFirst && !(et == "any") && !nillableTy et
 
 /-- keys in order of first appearance -/
 def keysOf : List String → List String
@@ -133,17 +195,20 @@ def keysOf : List String → List String
 def vals (evs : KVs) (k : String) : List XVal :=
   (evs.filter (fun p => p.1 == k)).map (·.2)
 
-/-- `concatMaps` on the flattened (key, value) occurrences of all chunks. -/
-def concatEvs (cfg : Cfg) : Nat → KVs → Except Err KVs
-  | 0, _ => .error .fuel
-  | n + 1, evs =>
-    (keysOf (evs.map (·.1))).mapM (fun k => do
-      let v ← perKey cfg (fun ms => concatEvs cfg n ms.flatten) (vals evs k)
-      pure (k, v))
+/-- `concatMaps` on the flattened (key, value) occurrences of all chunks; `et` = the element
+    type of the maps being concatenated. -/
+def concatEvs (cfg : Cfg) : Nat → String → KVs → Except Err KVs
+  | 0, _, _ => .error .fuel
+  | n + 1, et, evs =>
+    if guardPanics cfg et && !evs.isEmpty then .error .panic
+    else
+      (keysOf (evs.map (·.1))).mapM (fun k => do
+        let v ← perKeyF cfg (fun et' ms => concatEvs cfg n et' ms.flatten) (vals evs k)
+        pure (k, v))
 
-/-- internal/concat.go `concatMaps` -/
-def concatMaps (cfg : Cfg) (n : Nat) (ms : List KVs) : Except Err KVs :=
-  concatEvs cfg n ms.flatten
+/-- internal/concat.go `concatMaps` on maps of type `map[string]et` -/
+def concatMaps (cfg : Cfg) (n : Nat) (et : String) (ms : List KVs) : Except Err KVs :=
+  concatEvs cfg n et ms.flatten
 
 /-! ## tool calls -/
 
@@ -278,7 +343,7 @@ def concatMsgs (cfg : Cfg) (n : Nat) (ms : List Msg) : Except Err Msg := do
   let name ← firstNE cfg.nameCheck "" (ms.map (·.name))
   let tcid ← firstNE cfg.tcidCheck "" (ms.map (·.toolCallID))
   let tcs ← concatTC cfg (ms.flatMap (·.toolCalls))
-  let extra ← concatMaps cfg n ((ms.map (·.extra)).filter (fun e => !e.isEmpty))
+  let extra ← concatMaps cfg n "any" ((ms.map (·.extra)).filter (fun e => !e.isEmpty))
   pure { role := role, name := name, toolCallID := tcid
          content := joinS (ms.map (·.content))
          multi := lastNEl [] (ms.map (·.multi))
@@ -313,8 +378,22 @@ def concatStrChunks (cfg : Cfg) (xs : List String) : Except Err String :=
     | .ok _ => .error .fail
     | .error e => .error e) xs
 
-def concatMapChunks (cfg : Cfg) (n : Nat) : List KVs → Except Err KVs :=
-  concatStream (concatMaps cfg n)
+/-- chunks of type `map[string]et` -/
+def concatMapChunks (cfg : Cfg) (n : Nat) (et : String) : List KVs → Except Err KVs :=
+  concatStream (concatMaps cfg n et)
+
+/-- `ConcatItems` on chunks of type `any` (`concatSliceValue` with an interface element type:
+    no function is registered, zero ⇔ nil interface, no type comparison): all nil → the nil
+    interface, which `cv.Interface().(T)` cannot be asserted to (a panic unless guarded); one
+    non-nil chunk → it; more → error. -/
+def anyCore (cfg : Cfg) (xs : List XVal) : Except Err XVal :=
+  match xs.filter (fun v => !v.isNil) with
+  | [] => if cfg.nilResultGuard then .ok .nil else .error .panic
+  | [v] => .ok v
+  | _ :: _ :: _ => .error .fail
+
+def concatAnyChunks (cfg : Cfg) : List XVal → Except Err XVal :=
+  concatStream (anyCore cfg)
 
 def concatMsgChunks (cfg : Cfg) (n : Nat) : List (Option Msg) → Except Err (Option Msg) :=
   concatStream (fun cs => (concatMsgPtrs cfg n cs).map some)
